@@ -488,6 +488,18 @@ def expected_conflict(snaps):
             if seen.setdefault(lab, set()) & ks:
                 return "same-kind-twice"
             seen[lab] |= ks
+    # file metadata of the same kind held by two libraries must agree EXACTLY under every ordinary key
+    # (group counts, velocity / boundary arrays ...): they describe the group structure
+    for blk in range(3):
+        metas = [tuple(kv for kv in s[1][blk][0] if kv[0] not in (0, 1)) for s in snaps if s[1][blk][0]]
+        if len(set(metas)) > 1:
+            return "library-metadata-differs"
+    nm = {}
+    for s in snaps:
+        for n in s[2]:
+            for f in (1, 2, 3):
+                if n[f] and nm.setdefault((n[0], f), n[f]) != n[f]:
+                    return "nuclide-metadata-differs"
     return None
 
 
@@ -630,6 +642,68 @@ def directed_scenarios():
                 tag = f"directed-{'gamma' if gamma else 'neutron'}-bounds-{mode}-{kind}"
                 out.append(([isoA, donor, x] if donor is not isoA else [isoA, x], tag))
                 out.append(([isoA, gamA, pmA, x], tag + "-chain4"))
+    out += exactness_ladder()
+    return out
+
+
+def exactness_ladder():
+    """EXACTNESS of the group-structure comparison: same group count, boundaries (or a float-array metadata entry) differing
+    by a relative 1e-3 ... 1e-8 or by one ulp in a single entry must be rejected in every order; identical = control."""
+    import random
+    out = []
+    r = random.Random(4242)
+
+    def perturb(v, mode):
+        a = np.array(v, dtype=float)
+        if mode == "ulp":
+            a[len(a) // 2] = np.nextafter(a[len(a) // 2], np.inf)
+        elif mode != "same":
+            a = a * (1.0 + float(mode))
+        return [float(x) for x in a]
+
+    for ng, ngam in ((3, 2), (33, 21)):
+        base = {"iso": gen_lib(r, "iso", "AA", ["U235", "FE56"], ng, ngam, "ISOAA"),
+                "gam": gen_lib(r, "gam", "AA", ["U235"], ng, ngam, "AA.gamiso"),
+                "pm": gen_lib(r, "pm", "AA", ["U235", "FE56"], ng, ngam, "AA.pmatrx")}
+        base["iso"]["isotxsMetadata"]["data"]["libraryLabel"] = ""
+        # non-dyadic boundaries (as in real files) so that every perturbation is a different double
+        base["iso"]["props"]["neutronEnergyUpperBounds"] = [b * 1.0123456789 for b in base["iso"]["props"]["neutronEnergyUpperBounds"]]
+        base["pm"]["props"]["neutronEnergyUpperBounds"] = list(base["iso"]["props"]["neutronEnergyUpperBounds"])
+        base["gam"]["props"]["gammaEnergyUpperBounds"] = [b * 0.987654321 for b in base["gam"]["props"]["gammaEnergyUpperBounds"]]
+        base["pm"]["props"]["gammaEnergyUpperBounds"] = list(base["gam"]["props"]["gammaEnergyUpperBounds"])
+        base["gam"]["gamisoMetadata"]["data"]["gammaVelocity..NOT"] = [1.0e9 / (g + 1.3) for g in range(ngam)]
+        pairs = (("iso", "iso", "isotxsMetadata", "neutronEnergyUpperBounds"), ("iso", "pm", "pmatrxMetadata", "neutronEnergyUpperBounds"),
+                 ("gam", "gam", "gamisoMetadata", "gammaEnergyUpperBounds"), ("gam", "pm", "pmatrxMetadata", "gammaEnergyUpperBounds"),
+                 ("pm", "pm", "pmatrxMetadata", "gammaEnergyUpperBounds"))
+        for mode in ("same", "1e-3", "1e-5", "3e-6", "1e-6", "1e-8", "ulp"):
+            for ka, kb, mname, prop in pairs:
+                x = gen_lib(r, kb, "QQ", ["O16", "B10"], ng, ngam, "QQ." + kb)
+                for pn in x["props"]:
+                    if pn in base[kb]["props"] and pn != "neutronVelocity":
+                        x["props"][pn] = list(base[kb]["props"][pn])
+                x["props"][prop] = perturb(base[ka]["props"][prop], mode)
+                own = {"iso": "isotxsMetadata", "gam": "gamisoMetadata", "pm": "pmatrxMetadata"}[kb]
+                x[own]["data"] = json.loads(json.dumps(base[kb][own]["data"]))
+                tag = f"exact-{prop[:5]}-{ka}+{kb}-{mode}"
+                out.append(([base[ka], x], tag))
+                if ng == 3:
+                    third = base["pm"] if "pm" not in (ka, kb) else base["gam"] if ka != "gam" else base["iso"]
+                    out.append(([base[ka], third, x], tag + "-chain3"))
+            # float-array metadata compared by _Metadata.merge: file level (gamma velocities) and nuclide level
+            y = json.loads(json.dumps(base["gam"]))
+            y["nucs"] = gen_lib(r, "gam", "QQ", ["O16"], ng, ngam, "x")["nucs"]
+            y["gamisoMetadata"]["files"] = ["QQ.gamiso"]
+            y["gamisoMetadata"]["data"]["gammaVelocity..NOT"] = perturb(base["gam"]["gamisoMetadata"]["data"]["gammaVelocity..NOT"], mode)
+            out.append(([base["gam"], y], f"exact-file-metadata-array-{mode}"))
+            a = json.loads(json.dumps(base["iso"]))
+            arr = [0.1 * (g + 1) for g in range(ng)]
+            a["nucs"][0][1]["isotxsMetadata"]["floatArray"] = arr
+            z = gen_lib(r, "gam", "AA", ["U235"], ng, ngam, "z.gamiso")
+            z["props"] = {}
+            z.pop("gamisoMetadata", None)
+            z["nucs"][0][1]["isotxsMetadata"] = json.loads(json.dumps(a["nucs"][0][1]["isotxsMetadata"]))
+            z["nucs"][0][1]["isotxsMetadata"]["floatArray"] = perturb(arr, mode)
+            out.append(([a, z], f"exact-nuclide-metadata-array-{mode}"))
     return out
 
 
